@@ -350,10 +350,25 @@ def fold_fillcmd(ctx, model):
             return BoundLib(f"sio.{name}", self)
 
     class Filled:
+        """the table fill_cij returns: the columns of the input table in their order (the volume column first), filled components appended"""
+        def __init__(self, cols=None):
+            self.cols = list(cols) if cols is not None else TABLE_A.splitlines()[2].split() + ["c22", "c33"]
+
         def sym_getattr(self, ev, name, node, mod):
             if name == "to_string":
                 return BoundLib("filled.to_string", self)
+            if name == "columns":
+                return Tup(list(self.cols), "list")
+            if name == "copy":
+                return BoundLib("filled.copy", self)
             raise ev.err(name, node, mod)
+
+        def sym_subscript(self, ev, idx, n, mod):
+            if isinstance(idx, Tup) and all(isinstance(c, str) for c in idx.items):
+                if not set(idx.items) <= set(self.cols):
+                    raise RaisedV("KeyError")
+                return Filled(idx.items)            # a table with these columns, in this order
+            raise ev.err("subscript on the filled table", n, mod)
 
     params = click_params(f)
     opts = {p: ("in.dat" if p == "input02" else f"OPT_{p}") for p in params}
@@ -383,7 +398,8 @@ def fold_fillcmd(ctx, model):
         "io.StringIO": lambda ev, a, k: SIO(a[0] if a else ""), "sio.write": lambda ev, a, k: setattr(a[0], "text", a[0].text + a[1]), "sio.seek": lambda ev, a, k: cap.setdefault("seek", []).append(a[1]),
         "pandas.read_table": read_table, "pandas.read_csv": read_table,
         "cij.util.fill:fill_cij": fill_cij,
-        "filled.to_string": lambda ev, a, k: cap.update(to_string=dict(k)) or "<FILLED TABLE>",
+        "filled.to_string": lambda ev, a, k: cap.update(to_string=dict(k), printed_cols=list(a[0].cols)) or "<FILLED TABLE>",
+        "filled.copy": lambda ev, a, k: Filled(a[0].cols),
     })
     ev = Ev(model, {}, intr, ctx=ctx)
     try:
@@ -408,6 +424,12 @@ def r_fillcmd(ctx, model):
     ctx.check(cap.get("table_text") == "".join(lines[2:5]), "exactly the column-name line and the N volume rows go to the table parser", w, expected=repr("".join(lines[2:5])),
               found=repr(cap.get("table_text")), explanation="the number of rows handed to the table parser is not N+1 with N read from field 2 of line 2",
               key="fillcmd.rows")
+    pc = cap.get("printed_cols") or []
+    allc = TABLE_A.splitlines()[2].split() + ["c22", "c33"]
+    ctx.check(bool(pc) and pc[0] == allc[0] and sorted(pc) == sorted(allc), "the printed table keeps the volume column first and every column of the filled table", w,
+              expected=f"first column {allc[0]!r}; columns {sorted(allc)}", found=f"printed columns {pc}",
+              explanation="the fill command prints the filled table with its columns rearranged or dropped: the static-table reader takes the FIRST column as the volume, "
+                          "so with these labels (upper-case component names sort before 'V') volumes and components are mis-parsed", key="fillcmd.columns")
     bound = cap.get("fill", {})
     wrong = [f"{p} <- {bound.get(p)!r}" for p in fill_params[1:] if p in opts and bound.get(p) != opts[p]]
     wrong += [f"{p} <- {v!r}" for p, v in bound.items() if p not in opts and p != fill_params[0]]
